@@ -353,6 +353,51 @@ pub fn sweep(ctx: &Ctx, rep: &mut Report, which: &str) {
     let _ = total_confs;
 }
 
+
+/// worker: nesting depth of logger names.  Each depth runs on a 2 MiB thread; the depth is announced on stderr
+/// first because a stack overflow kills the process.
+pub fn child_deep() -> i32 {
+    for depth in [8usize, 64, 512, 2000, 5000, 10_000, 30_000, 100_000] {
+        eprintln!("T {}", depth);
+        let r = std::thread::Builder::new()
+            .stack_size(2 << 20)
+            .spawn(move || -> Result<(), String> {
+                let name = vec!["m"; depth].join("::");
+                let hits = Arc::new(AtomicUsize::new(0));
+                let root_hits = Arc::new(AtomicUsize::new(0));
+                let conf = ConfSpec {
+                    appender_names: vec!["x".into(), "y".into()],
+                    root_level: LevelFilter::Warn,
+                    root_appenders: vec!["y".into()],
+                    loggers: vec![LoggerSpec { name: name.clone(), level: LevelFilter::Info, additive: true, appenders: vec!["x".into()] }],
+                };
+                let (h, rh) = (hits.clone(), root_hits.clone());
+                let cfg = build_config(&conf, &mut |n| if n == "x" { Box::new(CountAppender(h.clone())) } else { Box::new(CountAppender(rh.clone())) })?;
+                let logger = log4rs::Logger::new(cfg);
+                // the deepest logger admits INFO and is additive: x once, y once; one level above it the root decides (WARN): nothing
+                let deep_target = format!("{}::leaf", name);
+                logger.log(&Record::builder().target(&deep_target).level(log::Level::Info).args(format_args!("r")).build());
+                let above = vec!["m"; depth - 1].join("::");
+                logger.log(&Record::builder().target(&above).level(log::Level::Info).args(format_args!("r")).build());
+                let got = (hits.load(Ordering::SeqCst), root_hits.load(Ordering::SeqCst));
+                drop(logger);
+                if got != (1, 1) {
+                    return Err(format!("deliveries (x, y) = {:?}, expected (1, 1)", got));
+                }
+                Ok(())
+            })
+            .unwrap()
+            .join();
+        match r {
+            Ok(Ok(())) => {}
+            Ok(Err(e)) => println!("{}", json!({"kind": "violation", "sig": "deep-logger-name:wrong-routing", "detail": format!("logger name with {} components: {}", depth, e), "case": {"deep_logger_name_components": depth}})),
+            Err(_) => println!("{}", json!({"kind": "violation", "sig": "deep-logger-name:panic", "detail": format!("logger name with {} components", depth), "case": {"deep_logger_name_components": depth}})),
+        }
+    }
+    println!("{}", json!({"kind": "stat"}));
+    0
+}
+
 pub fn run(ctx: &Ctx) -> Report {
     let mut rep = Report::new("model_checking");
     rep.set(
@@ -364,6 +409,26 @@ pub fn run(ctx: &Ctx) -> Report {
          different configuration)",
     );
     sweep(ctx, &mut rep, "C01");
+    // nesting depth: one logger whose name has 8 ... 100 000 components, on a 2 MiB stack
+    {
+        let o = crate::engine::proc::run_child(&ctx.exe, "c01deep", &[], &[], ctx.cap);
+        let lines = o.json_lines();
+        for v in &lines {
+            if v["kind"] == "violation" {
+                rep.violation(v["sig"].as_str().unwrap_or("?"), v["detail"].as_str().unwrap_or(""), v["case"].clone());
+            }
+        }
+        rep.add("evaluations", 16);
+        if !lines.iter().any(|v| v["kind"] == "stat") {
+            let depth: u64 = String::from_utf8_lossy(&o.stderr).lines().filter_map(|l| l.strip_prefix("T ").and_then(|d| d.trim().parse().ok())).last().unwrap_or(0);
+            rep.violation(
+                "deep-logger-name:stack-overflow",
+                format!("the process died (status {:?}) building, using or dropping a logger whose name has {} '::'-separated components on a 2 MiB stack: {}", o.status, depth, String::from_utf8_lossy(&o.stderr).lines().last().unwrap_or("")),
+                json!({"deep_logger_name_components": depth}),
+            );
+            rep.set("deepest_logger_name_survived_below", depth);
+        }
+    }
     rep.assume("logger-name universe {a,ab,a::b,a::b::c,a::c,b}; appender names {x,y}; larger trees are outside the bound");
     rep
 }
